@@ -67,6 +67,15 @@ type e1Config struct {
 	validation    func() *WorldOptsValidation
 	deadline      [2]time.Duration
 	extraAssume   []string
+	deep          *deepPhase // optional second phase: reduced alphabet, deeper
+}
+
+// deepPhase is a second search with a reduced alphabet and a larger depth bound.
+type deepPhase struct {
+	names    []string
+	depth    [2]int
+	multi    func() []Op
+	initials func() []*Initial
 }
 
 type WorldOptsValidation struct{}
@@ -126,7 +135,8 @@ func runE1(prop string) int {
 	}
 	defer cleanup()
 	rep := NewReporter(prop, "model_checking")
-	rep.Assumptions = append(append([]string{}, commonAssumptions...), e1Configs[prop].extraAssume...)
+	cfg := e1Configs[prop]
+	rep.Assumptions = append(append([]string{}, commonAssumptions...), cfg.extraAssume...)
 	e.Rep = rep
 	if err := configureE1(prop, e); err != nil {
 		return fail(err)
@@ -134,7 +144,36 @@ func runE1(prop string) int {
 	if err := e.Run(); err != nil {
 		return fail(err)
 	}
-	return rep.Finish(e.Coverage())
+	cov := e.Coverage()
+	if cfg.deep != nil {
+		e2 := &E1{U: e.U, Cache: e.Cache, Rep: rep}
+		if err := configureE1(prop, e2); err != nil {
+			return fail(err)
+		}
+		multi := []Op{}
+		if cfg.deep.multi != nil {
+			multi = cfg.deep.multi()
+		}
+		e2.Alphabet = BuildAlphabet(cfg.deep.names, multi, false)
+		if cfg.deep.initials != nil {
+			e2.Initials = cfg.deep.initials()
+		}
+		e2.Depth = cfg.deep.depth[0]
+		if Tier() == "thorough" {
+			e2.Depth = cfg.deep.depth[1]
+		}
+		if err := e2.Run(); err != nil {
+			return fail(err)
+		}
+		c2 := e2.Coverage()
+		cov["deep_phase"] = map[string]any{"alphabet_fragments": cfg.deep.names, "alphabet_size": c2["alphabet_size"], "states": c2["states"], "transitions": c2["transitions"],
+			"probe_transitions": c2["probe_transitions"], "max_depth_completed": c2["max_depth_completed"], "depth_bound": c2["depth_bound"], "exhaustive": c2["exhaustive"], "samples": c2["samples"]}
+		cov["states"] = e.States + e2.States
+		cov["transitions"] = e.Transitions + e.ProbeTrans + e2.Transitions + e2.ProbeTrans
+		cov["traces_validated_against_impl"] = cov["transitions"]
+		cov["exhaustive"] = cov["exhaustive"].(bool) && c2["exhaustive"].(bool)
+	}
+	return rep.Finish(cov)
 }
 
 func registerE1(prop string, c *e1Config) {
@@ -143,8 +182,12 @@ func registerE1(prop string, c *e1Config) {
 }
 
 func init() {
-	registerE1("C01", &e1Config{checker: C01Checker{}, depth: [2]int{2, 3}, orphan: true})
-	registerE1("C02", &e1Config{checker: C02Checker{}, depth: [2]int{2, 3}, orphan: true})
+	deepInit := func() []*Initial { return CoreInitials()[:2] }
+	deepMulti := func() []Op { return CoreMulti()[:2] }
+	registerE1("C01", &e1Config{checker: C01Checker{}, depth: [2]int{2, 3}, orphan: true,
+		deep: &deepPhase{names: DeepFragOrder, depth: [2]int{3, 4}, initials: deepInit, multi: deepMulti}})
+	registerE1("C02", &e1Config{checker: C02Checker{}, depth: [2]int{2, 3}, orphan: true,
+		deep: &deepPhase{names: DeepFragOrder, depth: [2]int{3, 4}, initials: deepInit, multi: deepMulti}})
 	registerE1("C03", &e1Config{checker: C03Checker{}, depth: [2]int{1, 2}, probes: C03Probes, frags: c03Frags,
 		extraAssume: []string{"the request menu (probes) is applied from every state reached with at most depth_bound operations; invalid fragments violate one constraint class each, independent of the state"}})
 	{
@@ -157,5 +200,6 @@ func init() {
 	}
 	registerE1("C08", &e1Config{checker: C08Checker{}, depth: [2]int{2, 3}, frags: choiceFrags, multi: choiceMulti, initials: choiceInitials})
 	registerE1("C09", &e1Config{checker: C09Checker{}, depth: [2]int{2, 3}, orphan: true, renderAll: true, probes: C09Probes, frags: smallFrags,
+		deep: &deepPhase{names: []string{"fa", "fa1", "fb", "fd"}, depth: [2]int{3, 4}, initials: func() []*Initial { return CoreInitials()[:1] }},
 		extraAssume: []string{"probe transitions (re-submissions) start from every state reached with fewer than depth_bound operations"}})
 }
